@@ -231,6 +231,24 @@ func ruleChunkIndexing(c *eng.Ctx) {
 			}
 		}
 		c.Check(once, R, eng.FuncName(fn)+"#index++", fn.Pos(), "*chunkIndex advanced exactly once", "the chunk index is not advanced exactly once per created chunk: indices repeat or skip, IDs collide")
+		// the ID is made from the running index (the one thing that differs for every chunk of a document)
+		eng.Instrs(fn, false, func(in ssa.Instruction) {
+			st, ok := in.(*ssa.Store)
+			if !ok {
+				return
+			}
+			fr, ok := eng.AsField(st.Addr)
+			if !ok || fr.Field != "ID" || !strings.HasSuffix(fr.Struct, "rag.Chunk") {
+				return
+			}
+			fromIdx := false
+			for w := range eng.Slice(st.Val, func(*ssa.Call) bool { return true }) {
+				if ld, ok := w.(*ssa.UnOp); ok && ld.Op == token.MUL && idxPtr(ld.X) {
+					fromIdx = true
+				}
+			}
+			c.Check(fromIdx, R, eng.FuncName(fn)+"#ID", st.Pos(), "the ID is built from the running chunk index", "the chunk ID is not built from the running chunk index: two chunks of one document can get the same ID (equal text under the same headings), and a lookup by ID returns the wrong chunk")
+		})
 	}
 	for _, name := range []string{"rag.(*DocumentChunker).ChunkDocument", "rag.(*Chunker).Chunk"} {
 		fn := c.P.Func(name)
